@@ -282,4 +282,14 @@ def main():
 
 
 if __name__ == "__main__":
-    main()
+    try:
+        main()
+    except SystemExit:
+        raise
+    except BaseException as e:
+        # an infrastructure failure (scratch build, harness no longer compiles against a changed tree, tool missing) is
+        # neither a pass nor a violation: exit 2, never 1
+        import traceback
+        traceback.print_exc()
+        sys.stderr.write("INCONCLUSIVE: the check could not be carried out: %s\n" % (str(e)[-1500:],))
+        sys.exit(2)
